@@ -522,7 +522,8 @@ impl<T: Eq + Hash> FrequentItemsSketch<T> {
         if active_items.saturating_mul(8) > cursor.remaining() {
             return Err(Error::insufficient_data("weights"));
         }
-        if offset_val > stream_weight {
+        // offset <= stream weight, and room for "count + offset" (estimates, upper bounds)
+        if offset_val > stream_weight || stream_weight.checked_add(offset_val).is_none() {
             return Err(Error::deserial("offset exceeds the stream weight"));
         }
 
